@@ -48,6 +48,25 @@ Theorem C20_mark_guard : forall valid graph_ok meta_ok dir retry_ok a id b act l
 Proof. exact mark_guard. Qed.
 Print Assumptions C20_mark_guard.
 
+(* The DAG's process owns the control socket but does not answer within the timeout (live status st_timeout): the
+   guard on the latest status falls back to the recorded history, but a status edit is still refused - by
+   UpdateStatus - with the world unchanged; a stop is refused as well. *)
+Theorem C20_mark_unresponsive : forall valid graph_ok meta_ok dir retry_ok a id b act loc rq,
+  b_action b = Some act -> is_mark act -> view valid graph_ok dir (a_w a) id = Some loc ->
+  live_get loc (a_live a) = Some (rq, st_timeout) ->
+  fst (fst (post valid graph_ok meta_ok dir retry_ok a id b)) <> 200 /\
+  snd (fst (post valid graph_ok meta_ok dir retry_ok a id b)) = a /\
+  snd (post valid graph_ok meta_ok dir retry_ok a id b) = [].
+Proof. exact mark_unresponsive_refused. Qed.
+Print Assumptions C20_mark_unresponsive.
+
+Theorem C20_stop_unresponsive : forall valid graph_ok meta_ok dir retry_ok a id b loc rq,
+  b_action b = Some "stop" -> view valid graph_ok dir (a_w a) id = Some loc ->
+  live_get loc (a_live a) = Some (rq, st_timeout) ->
+  post valid graph_ok meta_ok dir retry_ok a id b = (400, a, []).
+Proof. exact stop_unresponsive_refused. Qed.
+Print Assumptions C20_stop_unresponsive.
+
 (* An accepted status edit: the DAG is not running; the run i of THIS DAG whose last status s carries the request
    id grows by ONE status s' that equals s except for the status of the named step j (and the top-level
    running -> failed relabel when that run is not the live one); every other run, every other DAG's history,
@@ -181,6 +200,13 @@ Example C20_ex_guards :
   view ok_all ok_all "/d" (a_w a_running) "a" = Some "/d/a.yaml" /\ latest_status a_running "/d/a.yaml" = st_running /\
   latest_status a_failed "/d/a.yaml" = 2%nat /\ latest_status a_crashed "/d/a.yaml" = 2%nat.
 Proof. exact ex_guards. Qed.
+
+Example C20_ex_unresponsive :
+  latest_status a_unresponsive "/d/a.yaml" = 2%nat /\
+  post ok_all ok_all ok_all "/d" true a_unresponsive "a" (bd "mark-success" "rc" "s1" "") = (500, a_unresponsive, []) /\
+  post ok_all ok_all ok_all "/d" true a_unresponsive "a" (bd "mark-failed" "ro" "s2" "") = (500, a_unresponsive, []) /\
+  post ok_all ok_all ok_all "/d" true a_unresponsive "a" (bd "stop" "" "" "") = (400, a_unresponsive, []).
+Proof. exact ex_unresponsive. Qed.
 
 Example C20_ex_mark_exact :
   post ok_all ok_all ok_all "/d" true a_crashed "a" (bd "mark-success" "rc" "s2" "") =
